@@ -770,7 +770,14 @@ def _int64_guard_rule(ctx, repo):
     class _Fast(Exception):
         pass
     probes = [(None, 62), (None, 63), (None, 64), (2, 63), (2, 64), (3, 39), (3, 40), (3, 45), (3, 63), (4, 31), (4, 32), (4, 40), (10, 18), (10, 19), (10, 25), (5, 27), (5, 28), (7, 22), (7, 23)]
+    # mixed-radix bases given as a sequence - of Python ints and of numpy integers (whose products wrap around silently)
+    probes += [(('list', 3), 39), (('list', 3), 41), (('numpy', 3), 41), (('numpy', 2), 64), (('numpy', 2), 70), (('numpy', 10), 19), (('list', 2), 63)]
     for base, n in probes:
+        if isinstance(base, tuple):
+            kind, b0 = base
+            base_val = [b0] * n if kind == 'list' else np.array([b0] * n, dtype=np.int64)
+        else:
+            base_val = base
         def call_hook(call, it):
             s_ = ast.unparse(call.func)
             if s_.endswith('arange') or s_.endswith('cumprod'):
@@ -798,7 +805,7 @@ def _int64_guard_rule(ctx, repo):
             if node.attr in ('int64',) and isinstance(node.value, ast.Name) and node.value.id in ('np', 'numpy'):
                 return 'int64'
             return NotImplemented
-        it = fdx.NumInterp({'self': {}, 'key': 'k', 'fold_base': base, 'batch_size': 50000}, call_hook=call_hook, attr_hook=attr_hook)
+        it = fdx.NumInterp({'self': {}, 'key': 'k', 'fold_base': base_val, 'batch_size': 50000}, call_hook=call_hook, attr_hook=attr_hook)
         it.methods = {mn: f_ for c_ in repo.mro(res) for mn, f_ in c_.methods.items()}       # private helpers of the class are followed
         from . import c03 as _c03
         it.resolver = _c03.make_resolver(repo, res.mod, fn)                                   # and module-level ones
@@ -810,7 +817,7 @@ def _int64_guard_rule(ctx, repo):
             out = 'fast path'
         except (fdx.Unsupported, fdx.Raised) as ex:
             raise AnalysisError(f'Result._vectorized_histogram head is outside the interpretable subset: {ex}')
-        b = 2 if base is None else base
+        b = 2 if base is None else (base[1] if isinstance(base, tuple) else base)
         overflow = b ** n - 1 > 2 ** 63 - 1
         ok = (not overflow) or (out is None and not took_fast)
         ctx.ob('C18.m', f'{res.qual}._vectorized_histogram:base={base}:n={n}', ok, '' if ok else
